@@ -515,11 +515,19 @@ func Accept(ok []int, modes [][2]int, needle string, id int, keys, vals []string
 }
 
 func GenModes(r *vf.Rand, n int, lits []string) ([][2]int, string) {
-	if r.Chance(45) {
+	if r.Chance(30) {
 		return nil, ""
 	}
 
 	var modes [][2]int
+
+	if r.Chance(35) { // every value insists on as many key names as captured values: any lost or leaked capture shows
+		for i := 1; i <= n; i++ {
+			modes = append(modes, [2]int{i, 3})
+		}
+
+		return modes, ""
+	}
 
 	p := vf.Pick(r, []int{15, 30, 60})
 	for i := 1; i <= n; i++ {
